@@ -243,7 +243,12 @@ func main() {
 		if err := json.Unmarshal(b, &ws); err != nil {
 			panic(err)
 		}
-		cases = append(cases, &ws)
+		// the outcome may depend on the order in which the linter reports the violations: a stored workspace is run
+		// several times
+		for k := 0; k < 8; k++ {
+			w := ws
+			cases = append(cases, &w)
+		}
 	} else {
 		tier := os.Args[3]
 		if len(os.Args) > 6 {
@@ -278,7 +283,7 @@ func main() {
 		rng := hutil.NewRng(hutil.SeedFromEnv())
 		n, nshape, repeat := 64, 4, 5
 		if tier == "thorough" {
-			n, nshape, repeat = 1500, 60, 8
+			n, nshape, repeat = 1500, 40, 6
 		}
 		for i := 0; i < n; i++ {
 			cases = append(cases, genWS(rng, i))
